@@ -710,6 +710,109 @@ def coq_context_free_rules():
     return sorted(re.findall(r'"([^"]+)"', m.group(1))) if m else None
 
 
+def function_kind_family(ctx, prefix="C08", only_rules=None):
+    """(g) function kinds -- "nested functions of every kind": every function-like wrapper with the same async/generator flags must
+    give the verdict of the plain function expression, as boundary and as container.  only_rules: restrict to these rule codes
+    (C10 / C11 run it for the rules that read the control-flow analysis)."""
+    # ---------------------------------------------------------------- (g) function kinds: "nested functions of every kind"
+    # every function-like wrapper with the same async/generator flags must give the verdict of the plain function expression
+    FK = []   # (name, pre, suf, async, generator)
+    for a in (False, True):
+        for g in (False, True):
+            A, G = ("async " if a else ""), ("*" if g else "")
+            FK += [("fn-decl", "%sfunction%s w() { " % (A, G), " }", a, g),
+                   ("fn-expr", "(%sfunction%s () { " % (A, G), " });", a, g),
+                   ("class-method", "class K { %s%sm() { " % (A, G), " } }", a, g),
+                   ("static-method", "class K { static %s%sm() { " % (A, G), " } }", a, g),
+                   ("private-method", "class K { %s%s#m() { " % (A, G), " } }", a, g),
+                   ("class-expr-method", "x = class { %s%sm() { " % (A, G), " } };", a, g),
+                   ("object-method", "x = { %s%sm() { " % (A, G), " } };", a, g),
+                   ("object-computed-method", "x = { %s%s[k]() { " % (A, G), " } };", a, g),
+                   ("object-fn-prop", "x = { m: %sfunction%s () { " % (A, G), " } };", a, g),
+                   ("export-default-fn", "export default %sfunction%s () { " % (A, G), " }", a, g)]
+            if not g:
+                FK += [("arrow", "(%s() => { " % A, " });", a, g),
+                       ("object-arrow-prop", "x = { m: %s() => { " % A, " } };", a, g),
+                       ("class-field-arrow", "class K { f = %s() => { " % A, " }; }", a, g)]
+    FK += [("getter", "x = { get g() { ", " } };", False, False), ("setter", "x = { set s(v) { ", " } };", False, False),
+           ("class-getter", "class K { get g() { ", " } }", False, False), ("class-setter", "class K { set s(v) { ", " } }", False, False),
+           ("constructor", "class K { constructor() { ", " } }", False, False)]
+    # (rule, outer pre, outer suf, inner statement, needs async, needs generator, wrappers excluded by the rule's own specification)
+    FKT = [("no-top-level-await", "", "", "await x;", True, None, ()),
+           ("no-top-level-await", "", "", "for await (const a of b) {}", True, None, ()),
+           ("no-await-in-sync-fn", "", "", "await x;", True, None, ()),
+           ("no-await-in-sync-fn", "async function o() { ", " }", "await x;", False, False, ()),
+           ("no-sync-fn-in-async-fn", "", "", "Deno.readTextFileSync(\"a\");", None, None, ()),
+           ("no-await-in-loop", "async function o() { for (;;) { ", " } }", "await x;", True, None, ()),
+           ("no-await-in-loop", "", "", "for (;;) { await x; }", True, None, ()),
+           ("no-unsafe-finally", "function o() { try {} finally { ", " } }", "return 1;", None, None, ()),
+           ("no-unsafe-finally", "", "", "try {} finally { return 1; }", None, None, ()),
+           ("no-setter-return", "x = { set s(v) { ", " } };", "return 1;", None, None, ("setter", "class-setter")),
+           ("getter-return", "x = { get g() { ", " } };", "return 1;", None, None, ()),
+           ("getter-return", "", "", "x = { get g() { h(); } };", None, None, ("getter", "class-getter")),   # the wrapper getter has no return either
+           ("getter-return", "x = { get g() { ", " return 1; } };", "return;", None, None, ("getter", "class-getter")),
+           ("no-this-before-super", "class A extends B { constructor() { ", " super(); } }", "this.x;", None, None, ()),
+           ("constructor-super", "class A extends B { constructor() { ", " } }", "super();", None, None, "all-but-none"),
+           ("require-yield", "function* o() { ", " }", "yield 1;", None, True, ()),
+           ("require-await", "async function o() { ", " }", "await x;", True, None, ()),
+           ("no-unreachable", "function o() { return 1; ", " }", "h();", None, None, ()),
+           ("no-unreachable", "", "", "return 1; h();", None, None, ()),
+           ("no-unreachable", "function o() { ", " h(); }", "return 1;", None, None, ()),
+           ("no-unreachable", "function o() { ", " h(); }", "throw e;", None, None, ()),
+           ("no-unreachable", "function o() { for (;;) { ", " } h(); }", "return 1;", None, None, ()),
+           ("getter-return", "x = { get g() { ", " } };", "throw e;", None, None, ()),
+           ("no-fallthrough", "switch (a) { case 1: ", " case 2: break; }", "throw e;", None, None, ()),
+           ("no-fallthrough", "switch (a) { case 1: ", " case 2: break; }", "return 1;", None, None, ()),
+           ("no-inner-declarations", "", "", "if (c) { function inner() {} }", None, None, ()),
+           ("no-inner-declarations", "if (c) { ", " }", "function inner() {}", None, None, ("fn-decl",)),   # the wrapper declaration is itself inner there
+           ("no-arguments", "", "", "arguments;", None, None, ()) if False else None,
+           ("no-invalid-regexp", "", "", "new RegExp('[');", None, None, ()),
+           ("no-empty", "", "", "if (a) {}", None, None, ()),
+           ("no-var", "", "", "var v = 1;", None, None, ()),
+           ("prefer-const", "", "", "let pc = 1; h(pc);", None, None, ())]
+    FKT = [t for t in FKT if t and t[6] != "all-but-none" and (only_rules is None or t[0] in only_rules)]
+    gcases, gmeta = [], []
+    for ti, (rule, opre, osuf, inner, na, ng, excl) in enumerate(FKT):
+        for (wname, wpre, wsuf, wa, wg) in FK:
+            if (na is not None and wa != na) or (ng is not None and wg != ng) or wname in excl:
+                continue
+            src = opre + wpre + inner + wsuf + osuf
+            gcases.append({"src": src, "media": "ts", "rules": [rule]})
+            gmeta.append((ti, wname, wa, wg, len(opre.encode()), len(wpre.encode()), len(inner.encode()), len(wsuf.encode()), src))
+    gres = run_lint(gcases)
+    def _norm(d, o, lw, li, ls):
+        def pos(q):
+            if q < o: return ("o", q)
+            if q < o + lw: return ("w", 0)
+            if q <= o + lw + li: return ("i", q - o - lw)
+            if q <= o + lw + li + ls: return ("w", 1)
+            return ("a", q - (o + lw + li + ls))
+        return sorted((c, pos(s0), pos(e0), m) for c, s0, e0, m, h in d)
+    base = {}
+    for (ti, wname, wa, wg, o, lw, li, ls, src), r0 in zip(gmeta, gres):
+        if wname == "fn-expr":
+            d = rule_diags(r0, FKT[ti][0])
+            if d is not None:
+                base[ti, wa, wg] = _norm(d, o, lw, li, ls)
+    n_g = n_g_ok = 0
+    for (ti, wname, wa, wg, o, lw, li, ls, src), r0 in zip(gmeta, gres):
+        d = rule_diags(r0, FKT[ti][0])
+        if d is None or (ti, wa, wg) not in base:
+            continue
+        n_g += 1
+        got, want = _norm(d, o, lw, li, ls), base[ti, wa, wg]
+        if got == want:
+            n_g_ok += 1
+        else:
+            verdict = "hidden" if len(got) < len(want) else "created" if len(got) > len(want) else "moved"
+            ctx.violation("%s.%s:%s:function-kind:%s" % (prefix, verdict, FKT[ti][0], wname),
+                          "the verdict inside a %s differs from the verdict inside a function expression with the same async/generator flags: %s" % (wname, src),
+                          {"program": src, "rule": FKT[ti][0], "expected_normalised": want, "got_normalised": got})
+    ctx.correspondence("function kinds: %d function-like wrappers (declarations, expressions, arrows, class/object/private/static/computed methods, accessors, constructors, "
+                       "field arrows, export default; async and generator variants) give the verdict of the plain function expression, as boundary and as container" % len(FK),
+                       n_g, n_g_ok, [], "non-trivial := confirmed prediction; positions normalised relative to outer text / wrapper / inner statement")
+
+
 @register("C08")
 def c08(ctx):
     ctx.assumptions += [
@@ -1002,98 +1105,7 @@ def c08(ctx):
                     ctx.violation("C08.created:%s:inside-out:%s" % (rule, "/".join(chain) or "plain"), "the neutral twin is reported: %s" % src, {"program": src, "rule": rule, "got": got})
                 else:
                     n_e_ok += 1
-    # ---------------------------------------------------------------- (g) function kinds: "nested functions of every kind"
-    # every function-like wrapper with the same async/generator flags must give the verdict of the plain function expression
-    FK = []   # (name, pre, suf, async, generator)
-    for a in (False, True):
-        for g in (False, True):
-            A, G = ("async " if a else ""), ("*" if g else "")
-            FK += [("fn-decl", "%sfunction%s w() { " % (A, G), " }", a, g),
-                   ("fn-expr", "(%sfunction%s () { " % (A, G), " });", a, g),
-                   ("class-method", "class K { %s%sm() { " % (A, G), " } }", a, g),
-                   ("static-method", "class K { static %s%sm() { " % (A, G), " } }", a, g),
-                   ("private-method", "class K { %s%s#m() { " % (A, G), " } }", a, g),
-                   ("class-expr-method", "x = class { %s%sm() { " % (A, G), " } };", a, g),
-                   ("object-method", "x = { %s%sm() { " % (A, G), " } };", a, g),
-                   ("object-computed-method", "x = { %s%s[k]() { " % (A, G), " } };", a, g),
-                   ("object-fn-prop", "x = { m: %sfunction%s () { " % (A, G), " } };", a, g),
-                   ("export-default-fn", "export default %sfunction%s () { " % (A, G), " }", a, g)]
-            if not g:
-                FK += [("arrow", "(%s() => { " % A, " });", a, g),
-                       ("object-arrow-prop", "x = { m: %s() => { " % A, " } };", a, g),
-                       ("class-field-arrow", "class K { f = %s() => { " % A, " }; }", a, g)]
-    FK += [("getter", "x = { get g() { ", " } };", False, False), ("setter", "x = { set s(v) { ", " } };", False, False),
-           ("class-getter", "class K { get g() { ", " } }", False, False), ("class-setter", "class K { set s(v) { ", " } }", False, False),
-           ("constructor", "class K { constructor() { ", " } }", False, False)]
-    # (rule, outer pre, outer suf, inner statement, needs async, needs generator, wrappers excluded by the rule's own specification)
-    FKT = [("no-top-level-await", "", "", "await x;", True, None, ()),
-           ("no-top-level-await", "", "", "for await (const a of b) {}", True, None, ()),
-           ("no-await-in-sync-fn", "", "", "await x;", True, None, ()),
-           ("no-await-in-sync-fn", "async function o() { ", " }", "await x;", False, False, ()),
-           ("no-sync-fn-in-async-fn", "", "", "Deno.readTextFileSync(\"a\");", None, None, ()),
-           ("no-await-in-loop", "async function o() { for (;;) { ", " } }", "await x;", True, None, ()),
-           ("no-await-in-loop", "", "", "for (;;) { await x; }", True, None, ()),
-           ("no-unsafe-finally", "function o() { try {} finally { ", " } }", "return 1;", None, None, ()),
-           ("no-unsafe-finally", "", "", "try {} finally { return 1; }", None, None, ()),
-           ("no-setter-return", "x = { set s(v) { ", " } };", "return 1;", None, None, ("setter", "class-setter")),
-           ("getter-return", "x = { get g() { ", " } };", "return 1;", None, None, ()),
-           ("getter-return", "", "", "x = { get g() { h(); } };", None, None, ("getter", "class-getter")),   # the wrapper getter has no return either
-           ("getter-return", "x = { get g() { ", " return 1; } };", "return;", None, None, ("getter", "class-getter")),
-           ("no-this-before-super", "class A extends B { constructor() { ", " super(); } }", "this.x;", None, None, ()),
-           ("constructor-super", "class A extends B { constructor() { ", " } }", "super();", None, None, "all-but-none"),
-           ("require-yield", "function* o() { ", " }", "yield 1;", None, True, ()),
-           ("require-await", "async function o() { ", " }", "await x;", True, None, ()),
-           ("no-unreachable", "function o() { return 1; ", " }", "h();", None, None, ()),
-           ("no-unreachable", "", "", "return 1; h();", None, None, ()),
-           ("no-fallthrough", "switch (a) { case 1: ", " case 2: break; }", "return 1;", None, None, ()),
-           ("no-inner-declarations", "", "", "if (c) { function inner() {} }", None, None, ()),
-           ("no-inner-declarations", "if (c) { ", " }", "function inner() {}", None, None, ("fn-decl",)),   # the wrapper declaration is itself inner there
-           ("no-arguments", "", "", "arguments;", None, None, ()) if False else None,
-           ("no-invalid-regexp", "", "", "new RegExp('[');", None, None, ()),
-           ("no-empty", "", "", "if (a) {}", None, None, ()),
-           ("no-var", "", "", "var v = 1;", None, None, ()),
-           ("prefer-const", "", "", "let pc = 1; h(pc);", None, None, ())]
-    FKT = [t for t in FKT if t and t[6] != "all-but-none"]
-    gcases, gmeta = [], []
-    for ti, (rule, opre, osuf, inner, na, ng, excl) in enumerate(FKT):
-        for (wname, wpre, wsuf, wa, wg) in FK:
-            if (na is not None and wa != na) or (ng is not None and wg != ng) or wname in excl:
-                continue
-            src = opre + wpre + inner + wsuf + osuf
-            gcases.append({"src": src, "media": "ts", "rules": [rule]})
-            gmeta.append((ti, wname, wa, wg, len(opre.encode()), len(wpre.encode()), len(inner.encode()), len(wsuf.encode()), src))
-    gres = run_lint(gcases)
-    def _norm(d, o, lw, li, ls):
-        def pos(q):
-            if q < o: return ("o", q)
-            if q < o + lw: return ("w", 0)
-            if q <= o + lw + li: return ("i", q - o - lw)
-            if q <= o + lw + li + ls: return ("w", 1)
-            return ("a", q - (o + lw + li + ls))
-        return sorted((c, pos(s0), pos(e0), m) for c, s0, e0, m, h in d)
-    base = {}
-    for (ti, wname, wa, wg, o, lw, li, ls, src), r0 in zip(gmeta, gres):
-        if wname == "fn-expr":
-            d = rule_diags(r0, FKT[ti][0])
-            if d is not None:
-                base[ti, wa, wg] = _norm(d, o, lw, li, ls)
-    n_g = n_g_ok = 0
-    for (ti, wname, wa, wg, o, lw, li, ls, src), r0 in zip(gmeta, gres):
-        d = rule_diags(r0, FKT[ti][0])
-        if d is None or (ti, wa, wg) not in base:
-            continue
-        n_g += 1
-        got, want = _norm(d, o, lw, li, ls), base[ti, wa, wg]
-        if got == want:
-            n_g_ok += 1
-        else:
-            verdict = "hidden" if len(got) < len(want) else "created" if len(got) > len(want) else "moved"
-            ctx.violation("C08.%s:%s:function-kind:%s" % (verdict, FKT[ti][0], wname),
-                          "the verdict inside a %s differs from the verdict inside a function expression with the same async/generator flags: %s" % (wname, src),
-                          {"program": src, "rule": FKT[ti][0], "expected_normalised": want, "got_normalised": got})
-    ctx.correspondence("function kinds: %d function-like wrappers (declarations, expressions, arrows, class/object/private/static/computed methods, accessors, constructors, "
-                       "field arrows, export default; async and generator variants) give the verdict of the plain function expression, as boundary and as container" % len(FK),
-                       n_g, n_g_ok, [], "non-trivial := confirmed prediction; positions normalised relative to outer text / wrapper / inner statement")
+    function_kind_family(ctx)
     # ---------------------------------------------------------------- (h) function forms: the offending FUNCTION in every form
     FORMS = [("fn-decl", "%sfunction%s w(%s) { %s }"), ("fn-expr", "x = %sfunction%s (%s) { %s };"), ("arrow", "x = %s(%s) => { %s };"),
              ("class-method", "class K { %s%sm(%s) { %s } }"), ("static-method", "class K { static %s%sm(%s) { %s } }"), ("private-method", "class K { %s%s#m(%s) { %s } }"),
